@@ -119,6 +119,37 @@ def run(ctx):
                         table[a["v"]] = a["bb"]
                     table["otherwise"] = t["otherwise"]
 
+        def is_cap(d):
+            d = strip_sym(d)
+            return (d[0] == "field" and d[2] == "1") or sym_is_call(d, "cow::Metadata::capacity") or "'1'" in repr(d)
+
+        if not recognised:
+            # spelled as an if / else-if chain of equality tests on the capacity
+            chain = []
+            for bb_, dd, t_t, f_t in bool_switches(b):
+                dd = strip_sym(dd)
+                if dd[0] == "bin" and dd[1] == "Eq":
+                    l_, r_ = strip_sym(dd[2]), strip_sym(dd[3])
+                    cst, oth = (l_, r_) if l_[0] == "const" else (r_, l_)
+                    if cst[:2] == ("const", "int") and is_cap(oth):
+                        chain.append((bb_, cst[2], t_t, f_t))
+            if chain:
+                recognised = True
+                for bb_, c_, t_t, f_t in chain:
+                    table[c_] = t_t
+                # the final else: the false target that is not itself another test of the chain
+                tests = {x[0] for x in chain}
+                for bb_, c_, t_t, f_t in chain:
+                    if f_t not in tests and not any(f_t in b.reachable(f_t, cut=set()) and False for _ in ()):
+                        # follow straight-line blocks to the next test
+                        nxt = f_t
+                        seen_ = set()
+                        while nxt not in tests and nxt not in seen_ and b.term(nxt)["k"] == "goto":
+                            seen_.add(nxt)
+                            nxt = b.term(nxt)["target"]
+                        if nxt not in tests:
+                            table["otherwise"] = f_t
+
         def variant_built(bb):
             for s in b.blocks[bb]["s"]:
                 if s["k"] == "assign" and s["rv"]["k"] == "agg" and (s["rv"].get("adt") or "").endswith("cow::Kind"):
